@@ -44,6 +44,8 @@ def r1_two_directions(run):
     ci = m.cls("ident.IdentDB")
     writers = {}
     for name, fi in ci.methods.items():
+        if fi.qual in m.absorbed:
+            continue     # new helper, its statements are analysed in its callers
         w = _db_writes(fi.node)
         if w:
             writers[name] = w
@@ -293,8 +295,20 @@ def r3_freshness(run):
               "%s random bytes" % n, "only %s random bytes" % n, fi.loc(),
               nontrivial=False)
     cr = m.func(ID + "create_id")
-    wl = [w for w in walk_no_nested(cr.node) if isinstance(w, ast.While)]
-    run.check(len(wl) == 1 and unparse(wl[0].test) == "_id in self.db", "R3",
+    # whatever the loop looks like: a value is returned only when it is not
+    # already a key, and it is a fresh draw of _create_id
+    ccfg = cfg_of(cr, m)
+    corg = Origins(ccfg)
+    rets = ccfg.by_kind("return")
+    ok = bool(rets) and not [p for p in ccfg.pred[ccfg.return_exit]
+                             if ccfg.nodes[p].kind != "return"]
+    for r in rets:
+        v = r.ast.value
+        ok = ok and v is not None and \
+            Q("%s in self.db" % unparse(v), False) in facts(ccfg, r.id) and \
+            {(a.kind, a.text) for a in corg.of(v, r.id)} == \
+            {("call", "self._create_id")}
+    run.check(ok, "R3",
               cr.qual + "::retry-while-present",
               "re-drawn while the value is already a key",
               "collision retry loop changed", cr.loc())
